@@ -53,6 +53,28 @@ static void op_open(FILE *out, const char *id, char **a, int n) {
     close(fd);
 }
 
+/* OPENRESET <file> <type> <digest1 hex> <digest2 hex|e>: the expected header checksum is set, then set AGAIN (the second value may be
+ * malformed and refused), the error - if any - is cleared, and the file is opened.  A pin the setter accepted stays in force until it
+ * is replaced by another accepted one.  -> OK r2=<0|1> | ERR <stage> r2=<0|1> */
+static void op_openreset(FILE *out, const char *id, char **a, int n) {
+    int fd = open(a[0], O_RDONLY);
+    if(fd < 0) { fprintf(out, "%s HARNESS-ERR nofile\n", id); return; }
+    zckCtx *zck = zck_create();
+    zck_init_adv_read(zck, fd);
+    if(!zck_set_ioption(zck, ZCK_VAL_HEADER_HASH_TYPE, atoll(a[1]))) { fprintf(out, "%s ERR opt_type r2=0\n", id); return; }
+    size_t dl; unsigned char *d = get_hex(a[2], &dl);
+    if(!zck_set_soption(zck, ZCK_VAL_HEADER_DIGEST, (char *)d, dl)) { fprintf(out, "%s ERR opt_digest r2=0\n", id); return; }
+    free(d);
+    d = get_hex(strcmp(a[3], "e") == 0 ? "-" : a[3], &dl);
+    int r2 = zck_set_soption(zck, ZCK_VAL_HEADER_DIGEST, (char *)d, dl) ? 1 : 0;
+    free(d);
+    zck_clear_error(zck);
+    if(!zck_read_lead(zck)) { fprintf(out, "%s ERR lead r2=%d\n", id, r2); return; }
+    if(!zck_read_header(zck)) { fprintf(out, "%s ERR header r2=%d\n", id, r2); return; }
+    fprintf(out, "%s OK r2=%d\n", id, r2);
+    zck_free(&zck); close(fd);
+}
+
 /* OPENM <file> <pos> <byte hex>: zck_init_read on the file with one byte substituted (the mutated
  * copy lives in a memfd).  -> OK | ERR */
 static void op_openm(FILE *out, const char *id, char **a, int n) {
